@@ -19,60 +19,155 @@ MAX_OPS = 400
 # workflow templates (FlowIR before replication)
 # ----------------------------------------------------------------------------------------
 
-def gen_template(rng, two_stage=False, size=None):
-    """Random FlowIR template: list of components in dependency order.  Replicas / inherited replicas /
-    aggregators are produced later by the *real* replication code of the package loader."""
+def _decorate(rng, c):
+    """random failure-handling attributes of one template"""
+    if "shutdownOn" not in c["wa"] and rng.random() < 0.45:
+        c["wa"]["shutdownOn"] = sorted(rng.sample(["KnownIssue", "SystemIssue", "UnknownIssue", "Cancelled",
+                                                   "ResourceExhausted", "Killed", "SubmissionFailed"],
+                                                  rng.choice([1, 1, 2, 3])))
+    if rng.random() < 0.25:
+        c["wa"]["restartHookOn"] = sorted(rng.sample(["KnownIssue", "ResourceExhausted", "SystemIssue",
+                                                      "UnknownIssue"], rng.choice([1, 2])))
+    if rng.random() < 0.5:
+        c["wa"]["maxRestarts"] = rng.choice([0, 1, 2, 3])
+
+
+def gen_template(rng, two_stage=False, size=None, stages=None):
+    """Random FlowIR template: list of components in dependency order over `stages` consecutive stages.
+    Replicas / inherited replicas / aggregators are produced later by the *real* replication code of the
+    package loader.  `aggregate: true` is also put on components without any replicated input (second-level
+    aggregators, collectors of plain producers)."""
     k = size or rng.choice([2, 3, 3, 4, 4, 5, 6])
+    nst = stages if stages is not None else (2 if two_stage else 1)
+    nst = max(1, min(nst, k))
+    cuts = sorted(rng.sample(range(1, k), nst - 1)) if nst > 1 else []
+    stage_of = [sum(1 for x in cuts if x <= i) for i in range(k)]
     comps = []
     replicated = []     # template is (transitively) replicated
     have_rep = False
-    split = rng.randint(1, k - 1) if (two_stage and k >= 2) else k
     for i in range(k):
-        stage = 0 if i < split else 1
+        stage = stage_of[i]
         c = {"name": "c%d" % i, "stage": stage, "refs": [], "wa": {}}
         earlier = list(range(i))
         npred = 0 if i == 0 else rng.choice([0, 1, 1, 1, 2, 2, 3])
         preds = sorted(rng.sample(earlier, min(npred, len(earlier))))
-        if i == split and two_stage and not preds and earlier and rng.random() < 0.5:
+        if i > 0 and stage != stage_of[i - 1] and not preds and rng.random() < 0.5:
             preds = [rng.choice(earlier)]
         c["refs"] = preds
         is_rep = any(replicated[p] for p in preds)
         if is_rep and rng.random() < 0.55:
             c["wa"]["aggregate"] = True
             is_rep = False
+        elif not is_rep and preds and rng.random() < 0.12:
+            c["wa"]["aggregate"] = True          # aggregating without a replicated input
         elif not have_rep and not is_rep and rng.random() < 0.45:
             c["wa"]["replicate"] = rng.choice([2, 2, 3])
             have_rep = True
             is_rep = True
         same_stage_preds = [p for p in preds if comps[p]["stage"] == stage]
-        if same_stage_preds and rng.random() < (0.5 if stage == 1 else 0.3):
+        if same_stage_preds and rng.random() < (0.5 if stage >= 1 else 0.3):
             c["wa"]["repeatInterval"] = 1
             other = [p for p in earlier if comps[p]["stage"] < stage and p not in preds]
-            if stage == 1 and other and len(same_stage_preds) == len(preds) and rng.random() < 0.7:
-                # observer of a same-stage subject that also consumes from the previous stage: the repeating
+            if stage >= 1 and other and len(same_stage_preds) == len(preds) and rng.random() < 0.7:
+                # observer of a same-stage subject that also consumes from an earlier stage: the repeating
                 # exception must not extend to that producer
                 preds = sorted(preds + [rng.choice(other)])
                 c["refs"] = preds
                 is_rep_new = any(replicated[p] for p in preds)
                 if is_rep_new and not is_rep and not c["wa"].get("aggregate"):
                     is_rep = True
-        r = rng.random()
-        if r < 0.45:
-            c["wa"]["shutdownOn"] = sorted(rng.sample(["KnownIssue", "SystemIssue", "UnknownIssue", "Cancelled",
-                                                       "ResourceExhausted", "Killed", "SubmissionFailed"],
-                                                      rng.choice([1, 1, 2, 3])))
-        r = rng.random()
-        if r < 0.25:
-            c["wa"]["restartHookOn"] = sorted(rng.sample(["KnownIssue", "ResourceExhausted", "SystemIssue",
-                                                          "UnknownIssue"], rng.choice([1, 2])))
-        if rng.random() < 0.5:
-            c["wa"]["maxRestarts"] = rng.choice([0, 1, 2, 3])
+        _decorate(rng, c)
         replicated.append(is_rep)
         comps.append(c)
     return comps
 
 
-def flowir_yaml(template):
+def _normalise(comps):
+    """stage numbers -> 0..m-1 (keeps the order), names c0.."""
+    stages = sorted(set(c["stage"] for c in comps))
+    for i, c in enumerate(comps):
+        c["stage"] = stages.index(c["stage"])
+        c["name"] = "c%d" % i
+    return comps
+
+
+def gen_shaped(rng):
+    """Templates built around a motif (the purely random generator reaches these shapes only rarely):
+      xagg      replicated producer, other components of its stage, an aggregating consumer in the same or a
+                LATER stage, optionally a second-level aggregator (no replicated input) and a plain consumer;
+      chain     a producer with a shutdown list, a sibling, consumers spread over the following stages;
+      observer  a repeating component with several same-stage subjects that become launchable in different
+                scheduler passes, optionally one more input from an earlier stage.
+    Failure-handling attributes are random as in gen_template."""
+    motif = rng.choice(["xagg", "xagg", "chain", "observer"])
+    comps = []
+
+    def add(stage, refs, **wa):
+        comps.append({"name": "", "stage": stage, "refs": sorted(set(refs)), "wa": dict(wa)})
+        return len(comps) - 1
+    if motif == "xagg":
+        src = add(0, []) if rng.random() < 0.5 else None
+        rep = add(0, [src] if src is not None and rng.random() < 0.7 else [], replicate=rng.choice([2, 2, 3]))
+        sibs = [add(0, [src] if src is not None and rng.random() < 0.5 else [])
+                for _ in range(rng.choice([1, 1, 2]))]
+        if rng.random() < 0.3:
+            rep2 = add(0, [rep])            # inherits the replication
+        else:
+            rep2 = None
+        sa = rng.choice([0, 1, 1, 1, 2])
+        if sa == 2:
+            add(1, [rng.choice(sibs)] if rng.random() < 0.5 else [])
+        refs = [rep2 if rep2 is not None and rng.random() < 0.7 else rep]
+        if rng.random() < 0.35:
+            refs.append(rng.choice(sibs))   # a non-replicated input as well
+        agg = add(sa, refs, aggregate=True)
+        if rng.random() < 0.5:
+            add(rng.choice([sa, sa + 1]), [agg], aggregate=True)      # aggregator without replicated input
+        if rng.random() < 0.5:
+            add(rng.choice([sa, sa + 1]), [agg])
+    elif motif == "chain":
+        prod = add(0, [], shutdownOn=sorted(rng.sample(["KnownIssue", "SystemIssue", "UnknownIssue", "Cancelled",
+                                                        "ResourceExhausted"], rng.choice([1, 2, 4]))))
+        sib = add(0, [])
+        s1 = rng.choice([0, 1, 1])
+        c1 = add(s1, [prod] + ([sib] if rng.random() < 0.3 else []),
+                 **({"aggregate": True} if rng.random() < 0.25 else {}))
+        s2 = rng.choice([s1, s1 + 1])
+        add(s2, [c1])
+        add(rng.choice([s1, s2]), [])
+        if rng.random() < 0.4:
+            add(s2 + 1, [rng.choice([sib, c1])])
+    else:
+        a = add(0, [])
+        st = rng.choice([0, 0, 1])
+        b = add(st, [a])
+        c = add(st, [b])
+        subj = [b, c] if st == 0 and rng.random() < 0.5 else [c, add(st, [])]
+        if st == 0 and rng.random() < 0.5:
+            subj.append(a)
+        refs = list(subj)
+        if st == 1 and rng.random() < 0.6:
+            refs.append(a)
+        add(st, refs, repeatInterval=1)
+        if rng.random() < 0.4:
+            add(st + 1, [rng.choice(subj)])
+    for c in comps:
+        _decorate(rng, c)
+    return _normalise(comps)
+
+
+def gen_workflow(rng, p_shaped=0.4, stages=(1, 1, 2, 2, 3)):
+    """(template, stages with continue-on-error)"""
+    if rng.random() < p_shaped:
+        t = gen_shaped(rng)
+    else:
+        t = gen_template(rng, stages=rng.choice(list(stages)))
+    last = max(c["stage"] for c in t)
+    cont = [k for k in range(last) if rng.random() < 0.3]
+    return t, cont
+
+
+def flowir_yaml(template, cont=()):
     import yaml
     comps = []
     for c in template:
@@ -86,7 +181,10 @@ def flowir_yaml(template):
         if c["wa"]:
             d["workflowAttributes"] = dict(c["wa"])
         comps.append(d)
-    return yaml.safe_dump({"components": comps})
+    doc = {"components": comps}
+    if cont:
+        doc["variables"] = {"default": {"stages": {int(k): {"continue-on-error": "1"} for k in cont}}}
+    return yaml.safe_dump(doc)
 
 
 # ----------------------------------------------------------------------------------------
@@ -112,14 +210,17 @@ def describe(sim):
             "restartOn": list(wa.get("restartHookOn", [])),
             "maxRestarts": int(maxr),
         })
-    return {"comps": comps, "order": list(sim.order), "lastStage": int(sim.exp.numStages() - 1)}
+    return {"comps": comps, "order": list(sim.order), "lastStage": int(sim.exp.numStages() - 1),
+            "cont": [int(st.index) for st in sim.exp._stages if st.continueOnError]}
 
 
 def gen_scripts(rng, info, flavour=None):
     """exit reason of every task execution, per component reference"""
-    flavour = flavour or rng.choice(["success", "success", "shutdown", "fail", "mixed", "mixed", "restarts"])
+    flavour = flavour or rng.choice(["success", "success", "shutdown", "fail", "mixed", "mixed", "restarts",
+                                     "one-bad", "one-bad"])
     scripts = {}
-    for c in info["comps"]:
+    the_one = rng.randrange(len(info["comps"])) if flavour == "one-bad" else None
+    for ci, c in enumerate(info["comps"]):
         so = c["shutdownOn"]
         ro = [x for x in c["restartOn"] if x != "SubmissionFailed"]
         fatal = [x for x in ["KnownIssue", "SystemIssue", "UnknownIssue", "Cancelled", "ResourceExhausted"]
@@ -134,6 +235,8 @@ def gen_scripts(rng, info, flavour=None):
             kind = rng.choice(["ok", "ok", "ok", "shutdown" if so else "ok", "fail", "restart", "resub"])
         elif flavour == "restarts":
             kind = rng.choice(["ok", "restart", "restart", "resub", "resub-many"])
+        elif flavour == "one-bad" and ci == the_one:
+            kind = rng.choice(["fail", "fail", "shutdown" if so else "fail"])
         s = []
         if kind in ("restart",) and ro:
             s = [rng.choice(ro) for _ in range(rng.randint(1, 4))]
@@ -279,15 +382,32 @@ class RunResult:
     pass
 
 
-def run_real(template, scripts, chooser_factory, check_launch=True):
-    """Builds the experiment, runs Controller.run() under `chooser`, returns a RunResult
-    (info, scripts actually used, ops, snaps, result, final states, launch oracle failures ...)"""
+def final_state_changes(info, snaps):
+    """'exactly one final state', evaluated on the recorded states: [component, first final state, later state]
+    for every component that was seen in a final state and later in a different state"""
+    first = {}
+    out = []
+    for snap in snaps:
+        for i, c in enumerate(snap["comps"]):
+            st = c[0]
+            if i in first:
+                if st != first[i] and [i, first[i], st] not in out:
+                    out.append([i, first[i], st])
+            elif st in FINAL:
+                first[i] = st
+    return out
+
+
+def run_real(template, scripts, chooser_factory, check_launch=True, cont=()):
+    """Builds the experiment, runs the stage loop (Controller.initialise / Controller.run() per stage) under
+    `chooser`, returns a RunResult (info, scripts actually used, ops, snaps, result of the last run(), results per
+    stage, final states, launch oracle failures ...)"""
     tmp = tempfile.mkdtemp(prefix="c01-")
     cwd = os.getcwd()
     res = RunResult()
     sim = None
     try:
-        sim = detsim.Sim(flowir_yaml(template), tmp, {})
+        sim = detsim.Sim(flowir_yaml(template, cont), tmp, {})
         info = describe(sim)
         if callable(scripts):
             scripts = scripts(info)
@@ -314,8 +434,11 @@ def run_real(template, scripts, chooser_factory, check_launch=True):
         if check_launch:
             sim.launch_hook = on_launch
         res.result = sim.run(chooser_factory(sim))
+        res.results = list(sim.results)
         res.ops = sim.ops()
         res.snaps = [s for _, s in sim.trace]
+        res.flips = final_state_changes(info, res.snaps)
+        res.stage_states = sim.stage_states()
         res.final = [sim.state_name(r) for r in sim.refs]
         res.done = [r in sim.controller.comp_done for r in sim.refs]
         try:
@@ -339,7 +462,8 @@ def model_request(info, scripts, ops):
                                "maxRestarts")}
         d["script"] = list(scripts.get(c["ref"], []))
         comps.append(d)
-    return {"comps": comps, "order": info["order"], "lastStage": info["lastStage"], "ops": ops}
+    return {"comps": comps, "order": info["order"], "lastStage": info["lastStage"],
+            "cont": list(info.get("cont", [])), "ops": ops}
 
 
 def first_mismatch(model_snaps, real_snaps):
